@@ -35,7 +35,9 @@ QUERIES_FILE = ["entry offset", "entry ?TAG_typedef offset", "entry ?TAG_base_ty
                 "symbol", "[symbol (pos < 5)]", "symbol (pos < 3) (name, label, size)"]
 ARGS = [("-a", "x"), ("-a", "hello"), ("-a", "a%%b"), ("-a", "%s"), ("-a", "<%s>"), ("-a", "%( 1 %)"), ("-a", 'q"q'), ("-a", "b\\s"), ("-a", "100%"), ("-a", ""),
         ("-a", "two words"), ("-a", "%d=%x"), ("-a", "line\nbreak"), ("-a", "\\x41"), ("-a", "caf\u00e9"), ("--a", "1"), ("--a", "(1, 2)"), ("--a", "(1, 2, 3)"), ("--a", "!()"), ("--a", '"s"'), ("--a", '("p", "q")'), ("--a", "0x10"),
-        ("--a", "[7, 8] elem"), ("--a", "1 )"), ("--a", "drop")]
+        ("--a", "[7, 8] elem"), ("--a", "1 )"), ("--a", "drop"),
+        # values that are sequences: the header of a run shows them in brief form
+        ("--a", "[1, 2], [3, 4, 5]"), ("--a", '[1, "a"]'), ("--a", "[[1, 2], 3], []"), ("--a", '["x", "y"], ["z"]')]
 
 
 def brief_str(b):
@@ -69,6 +71,13 @@ def facts_arg(d, kind, text):
             vals.append((spec, v["b"]))
         elif v["t"] == "s":
             vals.append(("s:%s:%d" % (v["v"], v["p"]), brief_str(bytes.fromhex(v["v"]))))
+        elif v["t"] == "q" and v["p"] == 0:
+            # a sequence (of decimal integers, strings, sequences): its brief rendering is a literal that denotes it, and is what the header shows
+            try:
+                b = brief(v)
+            except Unrenderable:
+                return None
+            vals.append(("q:%s" % b.hex(), b.decode("latin-1")))
         else:
             return None
     return vals
